@@ -14,12 +14,18 @@
 //!
 //! Universe: the 3D universe of C15 (`d3gen`), covers with ≤ 2 (quick) / 3 (thorough) sheets
 //! (≤ 4 sheets for n ≤ 2 quick / n ≤ 3 thorough),
-//! the corpus (thorough: every corpus input 3 times — `simplify` iterates a HashSet, §5.9).
+//! the corpus (thorough: every corpus input 3 times — `simplify` iterates a HashSet, §5.9);
+//! products and twisted stackings (prisms over 2D symbols with a mid-height mirror, or stacked with
+//! an automorphism of the base: screw axes and glides) — over a euclidean base the symbol is
+//! euclidean by construction and `yes` is demanded (`euc_corpus`).
 use rust_dsymbols::covers::covers;
 use rust_dsymbols::delaney3d::{orbifold_graph, pseudo_toroidal_cover};
 use rust_dsymbols::euclidicity::{is_euclidean, Euclidean};
 use std::panic::{catch_unwind, AssertUnwindSafe};
-use verif_harness::d3gen::{classes, corpus, parse_symbol, symbols_3d};
+use verif_harness::d3gen::{
+    automorphisms, classes, corpus, curvature2, euclidean_2d, in_domain_3d, labelled, mirror_prisms, parse_symbol,
+    perm_order, stacked_prisms, symbols_2d_cryst, symbols_3d,
+};
 use verif_harness::dsgen::{random_perm1, Tab};
 use verif_harness::{Ctx, Rng};
 
@@ -165,6 +171,21 @@ fn main() {
         euccov(&mut ctx, &base.dual(), 4, "regress-D16");
     }
 
+    // (0') seeded-change study round 3 (see c15.rs): mirror prisms over the hyperbolic 2D symbol
+    //      <1.1:4:2 4,3 4,2 4:8,4> (no cover exists: `no`), and the P6_2 / P6_4 stackings of
+    //      triangular prisms (euclidean by construction: `yes` demanded)
+    {
+        let b = parse_symbol("<1.1:4:2 4,3 4,2 4:8,4>").expect("4222 base");
+        let id: Vec<usize> = (0..=b.size).collect();
+        let s = mirror_prisms(&b, &id).expect("hyperbolic prisms");
+        euc(&mut ctx, "euc", &s, false, 0, "witness prism hyp");
+        let l = parse_symbol("<1.1:6:2 5 6,3 4 6,2 5 6:3,6>").expect("p2 triangle layer");
+        for tau in [vec![0, 4, 6, 2, 5, 1, 3], vec![0, 5, 3, 6, 1, 4, 2]] {
+            let s = stacked_prisms(&l, &tau).expect("twisted prisms");
+            euc(&mut ctx, "euc_corpus", &s, false, 0, "witness stack euc order=3");
+        }
+    }
+
     // (1) corpus: yes expected; thorough: three runs of every input
     let reps = if th { 3 } else { 1 };
     for s in corpus() {
@@ -211,6 +232,69 @@ fn main() {
                     // covers with up to 4 sheets for the small symbols (n ≤ 2 quick, n ≤ 3 thorough)
                     let k = if n <= 2 || (th && n <= 3) { 4 } else if n <= 4 { sheets } else { 2 };
                     euccov(&mut ctx, &s, k, extra);
+                }
+            }
+        }
+    }
+    // (3) products and twisted stackings (families of c15.rs (4)); euclidean base ⇒ `yes` demanded.
+    //     quick:    euclidean bases: mirror prisms n ≤ 3 all, n = 4 every 4th; stackings n ≤ 3 all,
+    //               n = 4 every 4th, n = 5, 6 automorphisms of order ≥ 3; other bases: n ≤ 2 every 2nd,
+    //               n = 3 spherical every 8th, hyperbolic every 64th
+    //     thorough: euclidean bases n ≤ 4 all, n = 5, 6 all stackings; other bases n ≤ 2 all,
+    //               n = 3 spherical all, hyperbolic every 8th; n = 4 every 32nd
+    let mut prng = ctx.rng(1717);
+    let off = prng.below(64);
+    let mut pserial = 0usize;
+    for n in 1..=6 {
+        let sets = if n <= 3 { labelled(2, n) } else { classes(2, n) };
+        for t in &sets {
+            let bases = if n <= 4 { symbols_2d_cryst(t) } else { euclidean_2d(t, 6) };
+            for b in bases {
+                if (0..2).any(|i| (1..=b.size).any(|d| ![1, 2, 3, 4, 6].contains(&b.v[i][d]))) {
+                    continue;
+                }
+                let k = curvature2(&b).0;
+                let cls = if k > 0 { "sph" } else if k == 0 { "euc" } else { "hyp" };
+                for (ai, a) in automorphisms(&b).iter().enumerate() {
+                    let o = perm_order(a);
+                    let mut items: Vec<(&str, Tab)> = vec![];
+                    if o <= 2 && n <= 4 {
+                        if let Some(p) = mirror_prisms(&b, a).filter(in_domain_3d) {
+                            items.push(("mirror", p));
+                        }
+                    }
+                    if n <= 4 || o >= 3 || th {
+                        if let Some(p) = stacked_prisms(&b, a).filter(in_domain_3d) {
+                            items.push(("stack", p));
+                        }
+                    }
+                    for (kind, p) in items {
+                        pserial += 1;
+                        let stride = match (th, n, cls) {
+                            (_, 1..=3, "euc") => 1,
+                            (true, _, "euc") => 1,
+                            (false, 4, "euc") => 4,
+                            (false, _, "euc") => 1,
+                            (true, 1..=2, _) => 1,
+                            (false, 1..=2, _) => 2,
+                            (true, 3, "sph") => 1,
+                            (false, 3, "sph") => 8,
+                            (true, 3, _) => 8,
+                            (false, 3, _) => 64,
+                            (true, 4, _) => 32,
+                            _ => 0,
+                        };
+                        if stride == 0 || (pserial + off) % stride != 0 {
+                            continue;
+                        }
+                        let extra = format!("prism {} {} base={} aut={} order={}", kind, cls, n, ai, o);
+                        euc(&mut ctx, if cls == "euc" { "euc_corpus" } else { "euc" }, &p, false, 0, &extra);
+                        ograph(&mut ctx, &p, &extra);
+                        if (pserial + off) % (8 * stride) == 0 {
+                            let vs = variants(&p, &mut prng, 1);
+                            eucinv(&mut ctx, &vs, &extra);
+                        }
+                    }
                 }
             }
         }
